@@ -785,7 +785,25 @@ func (fc *FnCtx) panicExit(callee, site string, pos token.Pos) {
 	if !fc.c.Recovers {
 		if !fc.c.MayPanic {
 			fc.oblige("panic", "propagates_unannounced{"+site+"}", "false", pos, fc.cprops(), "callee "+shortName(callee)+" may panic: declare this function may_panic or recover")
+			return
 		}
+		// the panic passes through this function: its deferred calls run, then it leaves exceptionally. Its onpanic
+		// clauses are exceptional postconditions (e.g. "no lock is left held"), checked in a state where the callee may
+		// have done anything (only ghosts declared stable, such as lock counters, survive)
+		if len(fc.c.OnPanic) == 0 || fc.dry || fc.inPanicExit {
+			return
+		}
+		saved, savedBlock := fc.cur, fc.curBlock
+		fc.inPanicExit = true
+		fc.cur = saved.clone()
+		fc.havocAll(fc.cur)
+		fc.runDefers()
+		env := fc.newEnv(fc.cur, fc.entry)
+		for _, cl := range fc.c.OnPanic {
+			fc.oblige("panic", cl.Label+"{"+site+"}", env.evalBool(cl.E), pos, fc.clauseProps(cl), cl.Text)
+		}
+		fc.cur, fc.curBlock = saved, savedBlock
+		fc.inPanicExit = false
 		return
 	}
 	saved, savedBlock := fc.cur, fc.curBlock
